@@ -30,7 +30,102 @@ use std::task::{Context, Poll, Waker};
 use std::time::Duration;
 
 pub fn streams() -> Vec<Stream> {
-    vec![Stream { name: "batcher", gen: gen_batcher, run: run_batcher }]
+    vec![
+        // the full trace (all observables, all oracles) — for replays and debugging
+        Stream { name: "batcher", gen: gen_batcher, run: run_batcher },
+        // the same schedules projected onto the observables each property constrains
+        Stream { name: "batcher_c06", gen: gen_batcher, run: run_c06 },
+        Stream { name: "batcher_c07", gen: gen_batcher, run: run_c07 },
+        Stream { name: "batcher_c08", gen: gen_batcher, run: run_c08 },
+        Stream { name: "batcher_c09", gen: gen_batcher, run: run_c09 },
+    ]
+}
+
+/// Projection of the full trace onto one property's observables (mirrors `project` in Driver/Batcher.lean):
+/// which event kinds are kept (by first character), whether the per-op `|queue_length/truncated` suffix and the
+/// final counters are kept, and which oracles belong to the property.
+struct Proj {
+    events: &'static str,
+    tags: bool,
+    queue: bool,
+    counters: bool,
+    oracles: &'static [&'static str],
+}
+
+const FULL: Proj = Proj { events: "!?~cwdP", tags: true, queue: true, counters: true, oracles: &["c0", "receiver"] };
+/// C06: every on_batch argument, the send / try_send results, queue length + truncation counter, termination
+const P06: Proj = Proj { events: "cdP", tags: true, queue: true, counters: false, oracles: &["c06"] };
+/// C07: when each flush callback ran (or was dropped) relative to the on_batch calls and their outcomes
+const P07: Proj = Proj { events: "!~cP", tags: false, queue: false, counters: false, oracles: &["c07"] };
+/// C08: calls, wait durations, every callback invocation, termination, the batch counters
+const P08: Proj = Proj { events: "!?~cwdP", tags: false, queue: false, counters: true, oracles: &["c08", "receiver"] };
+/// C09: the queue length and truncation counter after every operation, the try_send results
+const P09: Proj = Proj { events: "", tags: true, queue: true, counters: false, oracles: &["c09"] };
+
+fn project(full: &str, p: &Proj) -> String {
+    let (trace, fails) = match full.split_once('\t') {
+        Some((t, f)) => (t, Some(f)),
+        None => (full, None),
+    };
+    if trace == "bad-case" {
+        return full.to_string();
+    }
+    let mut out = Vec::new();
+    for tok in trace.split(' ') {
+        if let Some(fin) = tok.strip_prefix("F:") {
+            let mut parts = fin.split(',');
+            let st = parts.next().unwrap_or("");
+            if p.counters {
+                out.push(format!("F:{}", fin));
+            } else {
+                out.push(format!("F:{}", st));
+            }
+            continue;
+        }
+        let (body, q) = tok.rsplit_once('|').unwrap_or((tok, ""));
+        let mut parts = body.split(',');
+        let tag = parts.next().unwrap_or("");
+        // a skipped op stays visible in every projection; otherwise the tag is kept only where it is an observable
+        let mut t = if p.tags || tag == "x" { tag.to_string() } else { "-".to_string() };
+        for e in parts {
+            let c = e.chars().next().unwrap_or(' ');
+            if p.events.contains(c) {
+                t.push(',');
+                t.push_str(e);
+            }
+        }
+        if p.queue {
+            t.push('|');
+            t.push_str(q);
+        }
+        out.push(t);
+    }
+    let mut s = out.join(" ");
+    if let Some(f) = fails {
+        let kept: Vec<&str> = f
+            .trim_start_matches("FAIL:")
+            .split('+')
+            .filter(|x| p.oracles.iter().any(|o| x.starts_with(o)))
+            .collect();
+        if !kept.is_empty() {
+            s.push_str("\tFAIL:");
+            s.push_str(&kept.join("+"));
+        }
+    }
+    s
+}
+
+fn run_c06(line: &str) -> String {
+    project(&run_batcher(line), &P06)
+}
+fn run_c07(line: &str) -> String {
+    project(&run_batcher(line), &P07)
+}
+fn run_c08(line: &str) -> String {
+    project(&run_batcher(line), &P08)
+}
+fn run_c09(line: &str) -> String {
+    project(&run_batcher(line), &P09)
 }
 
 const RETRY_MAX: usize = 10;
@@ -101,6 +196,7 @@ fn parse_case(line: &str) -> Option<(usize, Vec<usize>, Vec<Op>)> {
 #[derive(Clone, Debug, PartialEq)]
 enum Ev {
     Fired(u64),
+    FiredEmpty(u64),
     Dropped(u64),
     Call(Vec<u64>),
     Wait(u128),
@@ -178,13 +274,15 @@ impl Future for WaitGate {
 /// A callback body: records that it ran; records that it was dropped unrun.
 struct Cb {
     id: u64,
+    flush: bool,
     sh: Shared,
     ran: bool,
 }
 impl Cb {
     fn run(mut self) {
         self.ran = true;
-        self.sh.lock().unwrap().log.push(Ev::Fired(self.id));
+        let ev = if self.flush { Ev::Fired(self.id) } else { Ev::FiredEmpty(self.id) };
+        self.sh.lock().unwrap().log.push(ev);
         if self.id >= 5000 {
             panic!("scripted panic inside a callback");
         }
@@ -309,6 +407,12 @@ impl Oracle {
                     }
                 }
             }
+            Ev::FiredEmpty(w) => {
+                if self.fired.contains(w) {
+                    self.fail("c08-once");
+                }
+                self.fired.push(*w);
+            }
             Ev::Dropped(w) => self.dropped.push(*w),
             Ev::Done => {
                 self.conclude();
@@ -420,8 +524,8 @@ impl World {
         }
     }
 
-    fn cb(&self, id: u64) -> impl FnOnce() + Send + 'static {
-        let cb = Cb { id, sh: self.sh.clone(), ran: false };
+    fn cb(&self, id: u64, flush: bool) -> impl FnOnce() + Send + 'static {
+        let cb = Cb { id, flush, sh: self.sh.clone(), ran: false };
         move || cb.run()
     }
 
@@ -485,7 +589,7 @@ impl World {
                     obs.extend(self.or.inflight.iter().copied());
                     self.or.obligations.push((*w, obs));
                     self.or.registered.push(*w);
-                    let cb = self.cb(*w);
+                    let cb = self.cb(*w, true);
                     let _ = hcommon::catch(|| s.when_flushed(cb));
                     "f".into()
                 }
@@ -494,7 +598,7 @@ impl World {
                 None => "x".into(),
                 Some(s) => {
                     self.or.registered.push(*w);
-                    let cb = self.cb(*w);
+                    let cb = self.cb(*w, false);
                     let _ = hcommon::catch(|| s.when_empty(cb));
                     "e".into()
                 }
@@ -564,6 +668,7 @@ impl World {
             out.push(',');
             match e {
                 Ev::Fired(w) => out.push_str(&format!("!{}", w)),
+                Ev::FiredEmpty(w) => out.push_str(&format!("?{}", w)),
                 Ev::Dropped(w) => out.push_str(&format!("~{}", w)),
                 Ev::Call(b) => out.push_str(&format!("c({})", items(b))),
                 Ev::Wait(d) => out.push_str(&format!("w{}", d)),
